@@ -203,8 +203,18 @@ def _edit_dict(d, key, idx, val):
     return None
 
 
+def _request_burst(n, prefix):
+    """n distinct captioned requests in a row (what a long-running session does over hours)."""
+    import barril.units as u
+
+    for j in range(n):
+        u.GetUnknownQuantity("%s/%d" % (prefix, j))
+    return n
+
+
 class _Py:
     FUNCS = {
+        "request_burst": _request_burst,
         "add": operator.add,
         "sub": operator.sub,
         "mul": operator.mul,
